@@ -4,8 +4,18 @@ package c12
 import (
 	"fmt"
 	"math/big"
+	"net/http"
+	"net/http/httptest"
+	"runtime"
+	"strconv"
+	"strings"
+	"sync"
+	"sync/atomic"
 	"testing"
 	"time"
+
+	"github.com/vulcand/oxy/v2/cbreaker"
+	"github.com/vulcand/oxy/v2/internal/holsterv4/clock"
 
 	"github.com/vulcand/oxy/v2/verifharness/cbh"
 	"github.com/vulcand/oxy/v2/verifharness/vstat"
@@ -291,5 +301,218 @@ func TestC12_Ramp(t *testing.T) {
 			cl = append(cl, "recovery>=10-requests-both-outcomes")
 		}
 		vstat.Case(fmt.Sprintf("%v|%v|%v|%v|%v", F, R, P, phase, d.Log), best > 0, cl, map[string]any{"fallback": F.String(), "recovery": R.String(), "check": P.String(), "steps": d.Log})
+	})
+}
+
+// TestC12_LatencyRecovery: the breaker trips on a latency condition after a long history
+// (the rolling latency window has wrapped several times), then every re-admitted request
+// is fast and successful: the recovery must run its course - no second trip, ramp respected,
+// standby after the recovery period.
+func TestC12_LatencyRecovery(t *testing.T) {
+	rapid.Check(t, func(t *rapid.T) {
+		F := rapid.SampledFrom(cbh.MsGrid[6:10]).Draw(t, "fallback")
+		R := rapid.SampledFrom(cbh.MsGrid[6:10]).Draw(t, "recovery")
+		P := rapid.SampledFrom(cbh.MsGrid[0:5]).Draw(t, "checkPeriod")
+		phase := time.Duration(rapid.Int64Range(0, int64(10*time.Second)-1).Draw(t, "phase"))
+		thr := rapid.SampledFrom([]int{50, 100, 250}).Draw(t, "thresholdMs")
+		q := rapid.SampledFrom([]string{"50.0", "75.0", "90.0"}).Draw(t, "quantile")
+		d := cbh.New(t, fmt.Sprintf("LatencyAtQuantileMS(%s) > %d", q, thr), F, R, P, phase)
+		defer d.Close()
+		one := func(latency time.Duration) bool {
+			if !d.Start() {
+				return false
+			}
+			if latency > 0 {
+				d.Advance(latency)
+			}
+			d.Finish(len(d.InFlight)-1, 200)
+			return true
+		}
+		// healthy history: several turns of the 6 x 10 s latency window
+		perBucket := rapid.IntRange(3, 10).Draw(t, "fastPerBucket")
+		for b := rapid.IntRange(7, 14).Draw(t, "healthyBuckets"); b > 0; b-- {
+			for k := 0; k < perBucket; k++ {
+				if !one(0) || d.State() != "standby" {
+					t.Fatalf("healthy traffic refused / breaker left standby\n%s", d.History())
+				}
+				d.Advance(10*time.Second/time.Duration(perBucket) + time.Microsecond)
+			}
+		}
+		// the backend turns slow; slow samples pile up over several buckets until the breaker trips
+		slowPer := rapid.IntRange(2, 8).Draw(t, "slowPerBucket")
+		slow := time.Duration(thr)*time.Millisecond*2 + time.Microsecond
+		tripped := false
+		for i := 0; i < 600 && !tripped; i++ {
+			one(slow)
+			tripped = d.State() == "tripped"
+			if !tripped {
+				d.Advance(10*time.Second/time.Duration(slowPer) + time.Microsecond)
+			}
+		}
+		if !tripped {
+			vstat.Count("latency_never_tripped", 1)
+			return
+		}
+		tripAt := d.Now
+		d.Advance(F + time.Millisecond + time.Microsecond)
+		recStart := d.Now
+		var passed, refused int64
+		n := rapid.IntRange(10, 60).Draw(t, "recoveryRequests")
+		tick := R / time.Duration(n)
+		for i := 0; i < n && d.Now <= recStart+R; i++ {
+			e := int64(d.Now - recStart)
+			if one(0) {
+				passed++
+			} else {
+				refused++
+			}
+			if st := d.State(); st == "tripped" {
+				t.Fatalf("breaker tripped at +%v (after %d s of history), recovery began +%v; it tripped AGAIN at +%v although every re-admitted request was fast and successful\n%s", tripAt, int(tripAt/time.Second), recStart, d.Now, d.History())
+			}
+			if s, near := cmp(2*int64(R), passed, e, passed+refused); s > 0 && !near {
+				t.Fatalf("recovery began +%v (duration %v); at +%v %d of %d requests have been passed: above the ramp\n%s", recStart, R, d.Now, passed, passed+refused, d.History())
+			}
+			d.Advance(tick + time.Microsecond)
+		}
+		if d.Now <= recStart+R {
+			d.Advance(recStart + R - d.Now + time.Millisecond + time.Microsecond)
+		}
+		if !one(0) || d.State() != "standby" {
+			t.Fatalf("first request after the recovery period (began +%v, lasts %v) at +%v: state %s, want passed and standby\n%s", recStart, R, d.Now, d.State(), d.History())
+		}
+		vstat.Case(fmt.Sprintf("lat|%v|%v|%v|%v|%s|%d|%d|%d|%d", F, R, P, phase, q, thr, perBucket, slowPer, n), passed > 0 && refused > 0, []string{"latency-condition-after-wrapped-window"}, map[string]any{"fallback": F.String(), "recovery": R.String(), "tripped_at": tripAt.String(), "passed": passed, "refused": refused})
+	})
+}
+
+// meetLogger is the breaker's (public) Logger: while armed, every goroutine that logs waits
+// there - for a bounded number of scheduler yields, never for wall-clock time - until `want`
+// goroutines have arrived. Requests that the breaker serialises cannot meet (the first one
+// gives up after its budget and disarms the logger); requests it lets decide side by side do.
+type meetLogger struct {
+	armed   atomic.Bool
+	arrived atomic.Int64
+	want    int64
+}
+
+func (l *meetLogger) meet() {
+	if !l.armed.Load() {
+		return
+	}
+	l.arrived.Add(1)
+	for i := 0; i < 20000 && l.armed.Load(); i++ {
+		if l.arrived.Load() >= l.want {
+			return
+		}
+		runtime.Gosched()
+	}
+	l.armed.Store(false)
+}
+func (l *meetLogger) Debug(string, ...interface{}) { l.meet() }
+func (l *meetLogger) Info(string, ...interface{})  {}
+func (l *meetLogger) Warn(string, ...interface{})  {}
+func (l *meetLogger) Error(string, ...interface{}) {}
+
+// TestC12_ConcurrentBurst: a burst of requests arrives on real goroutines at ONE instant of the
+// recovery period. Whatever order the breaker decides them in, the fraction passed since the
+// recovery began stays on or below the ramp.
+func TestC12_ConcurrentBurst(t *testing.T) {
+	rapid.Check(t, func(t *rapid.T) {
+		F := rapid.SampledFrom(cbh.MsGrid[4:9]).Draw(t, "fallback")
+		R := rapid.SampledFrom(cbh.MsGrid[4:10]).Draw(t, "recovery")
+		clock.Freeze(cbh.Epoch)
+		defer clock.Unfreeze()
+		lg := &meetLogger{}
+		var handled atomic.Int64
+		handler := http.HandlerFunc(func(w http.ResponseWriter, r *http.Request) {
+			handled.Add(1)
+			w.Header().Set("X-Handler", "1")
+			st, _ := strconv.Atoi(r.Header.Get("X-Want"))
+			w.WriteHeader(st)
+		})
+		cb, err := cbreaker.New(handler, "NetworkErrorRatio() > 0.5", cbreaker.FallbackDuration(F), cbreaker.RecoveryDuration(R),
+			cbreaker.CheckPeriod(time.Millisecond), cbreaker.Logger(lg))
+		if err != nil {
+			t.Fatalf("%v", err)
+		}
+		var log []string
+		do := func(status int) bool {
+			req := httptest.NewRequest("GET", "http://x/", nil)
+			req.Header.Set("X-Want", strconv.Itoa(status))
+			rec := httptest.NewRecorder()
+			cb.ServeHTTP(rec, req)
+			return rec.Header().Get("X-Handler") == "1"
+		}
+		state := func() string {
+			s := cb.String()
+			s = s[strings.Index(s, "state=")+6:]
+			if j := strings.IndexAny(s, ",)"); j >= 0 {
+				s = s[:j]
+			}
+			return s
+		}
+		for i := 0; i < 20 && state() != "tripped"; i++ {
+			do(502)
+			clock.Advance(2*time.Millisecond + time.Microsecond)
+		}
+		if state() != "tripped" {
+			t.Fatalf("INFRA: could not trip the breaker")
+		}
+		clock.Advance(F + time.Millisecond + time.Microsecond)
+		var a, n int64
+		if do(200) {
+			a++
+		}
+		n++
+		if state() != "recovering" {
+			t.Fatalf("first request after the fallback period: state %s, want recovering", state())
+		}
+		var e time.Duration
+		bursts := rapid.IntRange(1, 4).Draw(t, "bursts")
+		overlapped := 0
+		for b := 0; b < bursts; b++ {
+			step := time.Duration(rapid.Int64Range(int64(R)/20, int64(R)/4).Draw(t, "step"))/time.Millisecond*time.Millisecond + time.Microsecond
+			if e+step >= R {
+				break
+			}
+			clock.Advance(step)
+			e += step
+			for k := rapid.IntRange(0, 6).Draw(t, "sequentialBefore"); k > 0; k-- {
+				if do(200) {
+					a++
+				}
+				n++
+			}
+			G := rapid.IntRange(2, 12).Draw(t, "burst")
+			lg.arrived.Store(0)
+			lg.want = int64(G)
+			lg.armed.Store(true)
+			var wg sync.WaitGroup
+			var passed atomic.Int64
+			for g := 0; g < G; g++ {
+				wg.Add(1)
+				go func() {
+					defer wg.Done()
+					if do(200) {
+						passed.Add(1)
+					}
+				}()
+			}
+			wg.Wait()
+			if lg.arrived.Load() >= int64(G) {
+				overlapped++
+			}
+			lg.armed.Store(false)
+			a += passed.Load()
+			n += int64(G)
+			log = append(log, fmt.Sprintf("+%v: burst of %d, %d passed; since recovery began %d of %d passed", e, G, passed.Load(), a, n))
+			if s, near := cmp(2*int64(R), a, int64(e), n); s > 0 && !near {
+				t.Fatalf("recovery lasts %v; at %v into it a burst of %d simultaneous requests arrived and %d of the %d requests since the recovery began have been passed: above the ramp 0.5*elapsed/duration = %.3f\n%s", R, e, G, a, n, 0.5*float64(e)/float64(R), strings.Join(log, "\n"))
+			}
+			if st := state(); st != "recovering" {
+				t.Fatalf("state %s in the middle of the recovery period\n%s", st, strings.Join(log, "\n"))
+			}
+		}
+		vstat.Case(fmt.Sprintf("burst|%v|%v|%s", F, R, strings.Join(log, ";")), len(log) > 0 && a > 1, []string{"concurrent-burst-in-recovery"}, map[string]any{"recovery": R.String(), "bursts": log})
+		vstat.Count("bursts_whose_requests_met_inside_the_breaker", int64(overlapped))
 	})
 }
